@@ -318,9 +318,10 @@ def rust_lowercase(s: str) -> str:
 
 @intrinsic('str::to_lowercase')
 def str_to_lowercase(ex, args):
-    v = S(ex, args[0])
+    v = ex.deref(args[0])
     if hasattr(v, 'to_lowercase'):
         return v.to_lowercase(ex)
+    v = S(ex, v)
     if isinstance(v, SymStr):
         c = symstr_concrete(v)
         if c is not None:
@@ -746,9 +747,10 @@ def str_split(ex, args):
 
 @intrinsic('str::split_whitespace')
 def str_split_whitespace(ex, args):
-    v = S(ex, args[0])
+    v = ex.deref(args[0])
     if hasattr(v, 'split_whitespace'):
         return v.split_whitespace(ex)
+    v = S(ex, v)
     s = C(ex, v)
     parts = []
     cur = ''
